@@ -96,9 +96,9 @@ def run(ctx):
                                    sigma=3.0 if tname == "bound-hugging" else 2.0, seed=seed % 1000)
                 akw = {}
                 if opt.get("bounds"):
-                    akw["prior_bounds"] = {f"x_{i}": ((0.0, 2 * math.pi) if tname == "circle" else (-5.0, 5.0)) for i in range(d)}
+                    akw["prior_bounds"] = {sd.pname(i): ((0.0, 2 * math.pi) if tname == "circle" else (-5.0, 5.0)) for i in range(d)}
                 if opt.get("periodic"):
-                    akw["periodic_parameters"] = ["x_0"]
+                    akw["periodic_parameters"] = [sd.pname(0)]
                 a = sd.make_aspire(tgt, flow, xp, nsutil.native_dtype(nsname, "float64"), d, **akw)
                 kw = {}
                 if kind == "minipcn_smc":
